@@ -340,6 +340,12 @@ func init() {
 					run.Do(genConsHandshake(r, c))
 					continue
 				}
+				if r.chance(2) && c.prev["pchan"] != "-" && c.prev["pchan"] != "" {
+					// core IBC closes the established CCV channel (e.g. the provider closed its end), possibly
+					// in the very block in which a VSC packet was received
+					run.Do("cchanclose ch=" + c.prev["pchan"])
+					continue
+				}
 				switch pickWeighted(r, []int{22, 20, 18, 14, 3, 1}) {
 				case 0: // a block boundary
 					run.Do("cend")
